@@ -16,6 +16,7 @@ package main
 
 import (
 	"bytes"
+	"context"
 	"fmt"
 	"io"
 	"math/rand"
@@ -149,9 +150,16 @@ func (e *endpoint) up() error {
 	return nil
 }
 
+// down stops the endpoint gracefully: the listener is closed, requests in flight are answered
+// completely (a request logged as 200 whose reply is cut off would be "delivered but reported as
+// failed", which is outside the property), idle keep-alive connections are closed.
 func (e *endpoint) down() {
 	if e.srv != nil {
-		e.srv.Close()
+		ctx, cancel := context.WithTimeout(context.Background(), 3*time.Second)
+		if err := e.srv.Shutdown(ctx); err != nil {
+			e.srv.Close()
+		}
+		cancel()
 		e.srv = nil
 	}
 }
